@@ -297,6 +297,22 @@ class Evaluator:
         else:
             raise Refused("bind target")
 
+    _EXC_PARENTS = {"KeyError": "LookupError", "IndexError": "LookupError", "OverflowError": "ArithmeticError", "ZeroDivisionError": "ArithmeticError",
+                    "EOFError": "Exception", "UnicodeDecodeError": "ValueError"}
+
+    def _handle(self, st: ast.Try, name: str, env: dict[str, Any], exc: BaseException):
+        chain_ = [name]
+        while chain_[-1] in self._EXC_PARENTS:
+            chain_.append(self._EXC_PARENTS[chain_[-1]])
+        chain_ += ["Exception", "BaseException"]
+        for h in st.handlers:
+            types = [] if h.type is None else ([norm(e).split(".")[-1] for e in h.type.elts] if isinstance(h.type, ast.Tuple) else [norm(h.type).split(".")[-1]])
+            if h.type is None or any(t in chain_ for t in types):
+                if h.name:
+                    env[h.name] = Sym(f"exception:{name}")
+                return self.run(h.body, env)
+        raise exc
+
     # ------------------------------------------------------------------ straight-line statements
     def run(self, body: list[ast.stmt], env: dict[str, Any] | None = None):
         """Execute a whitelisted straight-line / if body; returns ('return', value) or ('fall', None)."""
@@ -340,6 +356,20 @@ class Evaluator:
                         return r
                     if r[0] == "break":
                         break
+            elif isinstance(st, ast.Try) and not st.finalbody:
+                try:
+                    r = self.run(st.body, env)
+                except Raised as exc:
+                    name = str(exc).split("(")[0].split(".")[-1]
+                    r = self._handle(st, name, env, exc)
+                except (TypeError, ValueError, KeyError, IndexError, OverflowError, ZeroDivisionError, AttributeError, StopIteration) as exc:
+                    # raised by a host / builtin operation on the checker's own values: catchable by the fragment exactly like the real exception
+                    r = self._handle(st, type(exc).__name__, env, exc)
+                else:
+                    if r[0] == "fall" and st.orelse:
+                        r = self.run(st.orelse, env)
+                if r[0] in ("return", "break", "continue"):
+                    return r
             elif isinstance(st, ast.Break):
                 return ("break", None)
             elif isinstance(st, ast.Continue):
